@@ -181,7 +181,7 @@ def rule_seed(ctx):
         ctx.functions.add(k)
         ctx.check(not bad, "once-init:%s" % k, "the table initialiser %s reaches no source of variation (%d functions)" % (C.short(k), len(r)), ix.bodies[k].where(0),
                   bad_what="the table initialiser %s reaches %s" % (k, bad[:4]))
-    ctx.floor("OnceLock initialisers", len(inits), ONCE_TABLES)
+    ctx.floor("OnceLock initialisers", len(inits), ONCE_TABLES - 2)   # a table may become a compile-time constant; most stay
 
 
 def rule_statics(ctx):
@@ -189,8 +189,12 @@ def rule_statics(ctx):
     per = C.persistent_statics(ix)
     ctx.check(per == [C.TT_STATIC], "mutable-statics", "the only static that changes after initialisation is the transposition table", bad_what="mutable process-wide state: %s" % per)
     once = sorted(p for p, s in ix.statics.items() if s["ty"].startswith("std::sync::OnceLock<"))
-    ctx.check(len(once) == ONCE_TABLES and len(ix.statics) == ONCE_TABLES + 1, "init-once-tables", "%d init-once tables + the cache = all %d statics" % (len(once), len(ix.statics)),
-              bad_what="statics changed: %d OnceLock tables, %d statics in total (%s): new process-wide state has not been confirmed" % (len(once), len(ix.statics), sorted(ix.statics)))
+    # every static is the cache, one of the init-once tables whose initialisers were read (rule `seed`), or a plain constant
+    # (no interior mutability: a table computed at compile time is not state)
+    plain = sorted(p for p, s in ix.statics.items() if not s["mutable"] and not s["interior_mut"])
+    rest = sorted(set(ix.statics) - set(once) - set(plain) - {C.TT_STATIC})
+    ctx.check(ONCE_TABLES - 2 <= len(once) <= ONCE_TABLES and not rest, "init-once-tables", "%d init-once tables + %d constant table(s) + the cache = all %d statics" % (len(once), len(plain), len(ix.statics)),
+              bad_what="statics changed: %d OnceLock tables (confirmed: %d), others: %s: new process-wide state has not been confirmed" % (len(once), ONCE_TABLES, rest or sorted(ix.statics)))
     ctx.check(not any(s["mutable"] for s in ix.statics.values()), "no-static-mut", "no `static mut`", bad_what="static mut present")
     tls = []
     for b in ix.fn_bodies():
